@@ -39,8 +39,8 @@ CHECKS = {
             "Scheduling granularity = hook points; body polling order is not explored (the broadcast receiver buffers everything after subscribe; lag beyond the 16384-frame capacity is outside the quantifier); 3-4 frames per stream; replay determinism is asserted; the only I/O error injected is a failing log append.",
             "DESIGN.md §3 C06"),
     "C07": ("P", "exploration",
-            "bounded exhaustive enumeration of provider scripts x input kinds x parallel-run pairs through the production router against an in-process scripted provider; lifecycle grammar evaluated on the log; plus stateless schedule exploration of the posting handler and the run it spawns (spawn seam) as two actors Schedule part: POST /threads/{id}/messages for 4 inputs (tool write / failing read / checkpoint envelopes, prompt without provider) with the spawned session task run as a second actor; all interleavings with <=2 (quick) / <=3 (thorough) preemptions; the grammar must hold and run_spawned must precede every frame of its run on the thread stream.",
-            "First responses = every sequence of <=2 (quick) / <=3 (thorough) events from a 7-event alphabet (text, completed, calls to write / unknown tool / invalid args, malformed JSON, schema-invalid) x {[DONE], close, abort}, cuts inside the last event, HTTP errors with short and adversarial bodies (empty, 70 KiB, multi-byte text shifted by 0..3 bytes), empty body; 6 follow-up responses after calls; both history modes; 9 input kinds (prompt, tool and checkpoint envelopes incl. failing, timing-out, unknown, refused) with and without provider; two context-compile failures; 6 pairs of parallel runs. Every run goes through POST /threads/{id}/messages; afterwards each message must have exactly one run_spawned, each run exactly one run_ended after its single terminal session frame, selection < compiled < side effects / cursor < ended, sessions start at seq 0 and end once, jobs end at most once, and validated replay must hold.",
+            "bounded exhaustive enumeration of provider scripts x input kinds x parallel-run pairs through the production router against an in-process scripted provider; lifecycle grammar evaluated on the log; plus stateless schedule exploration of the posting handler and the run it spawns (spawn seam) as two actors",
+            "First responses = every sequence of <=2 (quick) / <=3 (thorough) events from a 7-event alphabet (text, completed, calls to write / unknown tool / invalid args, malformed JSON, schema-invalid) x {[DONE], close, abort}, cuts inside the last event, HTTP errors with short and adversarial bodies (empty, 70 KiB, multi-byte text shifted by 0..3 bytes), empty body; 6 follow-up responses after calls; both history modes; 9 input kinds (prompt, tool and checkpoint envelopes incl. failing, timing-out, unknown, refused) with and without provider; two context-compile failures; 6 pairs of parallel runs. Every run goes through POST /threads/{id}/messages; afterwards each message must have exactly one run_spawned, each run exactly one run_ended after its single terminal session frame, selection < compiled < side effects / cursor < ended, sessions start at seq 0 and end once, jobs end at most once, and validated replay must hold. Schedule part: POST /threads/{id}/messages for 4 inputs (tool write / failing read / checkpoint envelopes, prompt without provider) with the spawned session task run as a second actor; all interleavings with <=2 (quick) / <=3 (thorough) preemptions; the grammar must hold and run_spawned must precede every frame of its run on the thread stream.",
             "Script alphabet and length bounds; real runtime scheduling inside a run is not controlled (the oracle is schedule-independent); provider-gated enumeration of exchange orders for parallel runs is not built (pairs run freely).",
             "DESIGN.md §3 C07"),
     "C08": ("H-histories", "exploration",
